@@ -763,6 +763,11 @@ class Interp:
             a = self.resolve(a)
         if isinstance(b, (SOpt, SChoice)):
             b = self.resolve(b)
+        if isinstance(a, Opaque) or isinstance(b, Opaque):
+            # operator on an object known through an interface: the interface's __op__ / __rop__ method
+            r = self._opaque_binop(opcls, a, b)
+            if r is not NotImplemented:
+                return r
         if isinstance(a, SBool):
             a = SInt(z3.If(a.t, 1, 0))
         if isinstance(b, SBool):
@@ -823,6 +828,20 @@ class Interp:
         if opcls is ast.Add and (isinstance(a, (SStr, str)) != isinstance(b, (SStr, str))):
             raise PyRaise(TypeError('unsupported operand types for +'))
         raise Unsupported('binary operator %s on %r, %r' % (opcls.__name__, type(a).__name__, type(b).__name__))
+
+    _OPAQUE_DUNDER = {ast.Add: 'add', ast.Sub: 'sub', ast.Mult: 'mul', ast.Div: 'truediv', ast.FloorDiv: 'floordiv',
+                      ast.Mod: 'mod', ast.BitOr: 'or', ast.BitAnd: 'and', ast.BitXor: 'xor', ast.Pow: 'pow',
+                      ast.LShift: 'lshift', ast.RShift: 'rshift', ast.MatMult: 'matmul'}
+
+    def _opaque_binop(self, opcls, a, b):
+        nm = self._OPAQUE_DUNDER.get(opcls)
+        if nm is None:
+            return NotImplemented
+        if isinstance(a, Opaque) and self.reg.opaque_has(self, a, '__%s__' % nm):
+            return self.reg.call_opaque(self, a, '__%s__' % nm, [b], {})
+        if isinstance(b, Opaque) and self.reg.opaque_has(self, b, '__r%s__' % nm):
+            return self.reg.call_opaque(self, b, '__r%s__' % nm, [a], {})
+        return NotImplemented
 
     def _user_binop(self, opcls, a, b):
         names = _DUNDER.get(opcls)
